@@ -144,6 +144,18 @@ def prove(ctx, propfile=None):
         if extra or closed + len(axblocks) != nprint:
             ok = False; ctx.fail('assumptions', propfile, 'axioms: %s; closed %d + axiom blocks %d of %d' % (extra, closed, len(axblocks), nprint))
         ctx.cov['discharged'] = len(thms) if ok else 0
+        # thorough tier: independent re-check of the compiled property file and everything it depends on
+        if ok and not ctx.quick():
+            t = time.time()
+            mod = 'Urcu.' + propfile[:-2].replace('/', '.')
+            rc, so, se = sh('timeout 1500 coqchk -o -silent -R . Urcu %s' % mod, cwd=COQ, timeout=1600)
+            ctx.cov['coqchk_s'] = round(time.time() - t, 1)
+            summ = (so + se)
+            m = re.search(r'\* Axioms:(.*?)\n\s*\n', summ, flags=re.S)
+            ctx.cov['coqchk_axioms'] = ' '.join(m.group(1).split()) if m else '?'
+            bad = rc != 0 or not m or '<none>' not in m.group(1) or any(('relying on %s: <none>' % w) not in ' '.join(summ.split()) for w in ('type-in-type', 'unsafe (co)fixpoints')) or 'positivity is assumed: <none>' not in ' '.join(summ.split())
+            if bad:
+                ok = False; ctx.fail('assumptions', 'coqchk ' + mod, summ[-1500:]); ctx.cov['discharged'] = 0
     return ok
 
 # ---------------------------------------------------------------- harness builds
